@@ -51,6 +51,8 @@ func c14Values() []any {
 		// long strings (chunked encoders) and list entries that are empty or end in the delimiter
 		strings.Repeat("a", 1023), strings.Repeat("b", 1024), strings.Repeat("c", 1025), strings.Repeat("xyz~", 1000), l(strings.Repeat("q", 1500), "r"),
 		l("a", "b", ""), l("", ""), l("a,", "b,"), l("a/", "/"), l("a", ""), l(",", ","), m("k", l("a", "b", "")),
+		// percent signs (a value must never be used as a format string)
+		"100%", "%d items", "%%", "%s%v%!", l("50%", "%x"), m("k", "%d"),
 		// strings whose leading/trailing white space is part of the value (block scalars in YAML), also as the last leaf
 		"x\n", "x\ny\n\n", " x ", "\n", m("k", "x\n"), m("a", 1, "k", "x\ny\n\n"), l("a", "b\n"), m("k", " lead"), m("k", "trail "), m("k", "\tx"), l("  "),
 	}
